@@ -278,6 +278,15 @@ def loadFiles (K : KeySetOps B) (fs : Nat → Option Bytes) (key : Nat) : List F
 def load (K : KeySetOps B) (fs : Nat → Option Bytes) (levels : List (List FileMeta)) (key : Nat) : Option (List Bytes) :=
   loadFiles K fs key (findFiles levels key)
 
+/-- `snapshot.FindReaders(key)`: a reader (here: its file number) for every file found, `none` =
+the error return when the cache cannot open one of them -/
+def findReaders (K : KeySetOps B) (fs : Nat → Option Bytes) (levels : List (List FileMeta)) (key : Nat) :
+    Option (List Nat) :=
+  (findFiles levels key).mapM (fun f =>
+    match fs f.fileNumber with
+    | none => none
+    | some bytes => (Reader.open K bytes).map (fun _ => f.fileNumber))
+
 /-! ## executable stand-in for the bitmap: keys kept in descending order -/
 
 def insertDesc (k : Nat) : List Nat → List Nat
